@@ -136,7 +136,11 @@ def rk_step_unit(prop="C03"):
     c = cfg(extra=[("RungeKuttaSolver<'a, N, D, O, T, F>", "RungeKuttaSolver<D, O, T, F>"),
                    ("BSVector<N, O>", "Vec<R>"), ("BSMatrix<N, O, O>", "KM<O>"), ("BMatrix<N, D, Const<O>>", "HM"),
                    # the alias `type Step<R, C, D, E> = Result<(R, BVector<C, D>), IVPStatus<E>>` of src/ivp.rs, expanded
-                   ("Step<Self::RealField, Self::Field, D, Self::Error>", "Result<(R, V), IVPStatus<IVPError>>")])
+                   ("Step<Self::RealField, Self::Field, D, Self::Error>", "Result<(R, V), IVPStatus<IVPError>>"),
+                   # the builder (solve() only); its coefficient parameter is called R in rk.rs (R is the number shim here)
+                   ("RungeKutta<'a, N, D, O, T, F, R>", "RungeKutta<D, O, T, F, RC>"), ("PhantomData<&'a (T, R)>", "PhantomData<(T, RC)>"),
+                   ("IVPIterator<D, Self::Solver>", "IVPIterator<RungeKuttaSolver<D, O, T, F>>"), ("R", "RC")])
+    c.drop_where += ["R"]
     c.extra = list(c.extra) + [(".row_iter()", ".rows.iter()", "R26-matrix-rows")]
     u = Unit(prop, "rk_step", preludes=("real", "stdx", "ivp", "rkm", "rkh"), cfg=c)
     u.timeout = 240
@@ -257,6 +261,7 @@ def rk_step_unit(prop="C03"):
                 requires dt1 > 0real, self.dt@ == dt1 * (1real / 10real) || self.dt@ == dt1 * 4real || (self.dt@ == dt1 * delta@ && delta@ > 1real / 10real);
         }""")
     f.hint("loop 4 end", "proof { lemma_wsum_len(cols, vecr(self.avg_coefficients), ind as int, pre.state@); }")
+    rk_solve(u, "RungeKutta", "RungeKuttaSolver", RK, G)
     return u, f
 
 
@@ -342,10 +347,209 @@ pub open spec fn rk_y(t: real, y: Seq<real>, h: real, n: int, half: real, two: r
 
 ADAMS_CALL = "(self.derivative)(self.time.real() + self.dt.real(), predictor.as_slice(), &mut self.data.clone(),)"
 
+# solve() of the adaptive builders: nalgebra's generic constructors spelled as shim calls
+BUILD_RULES = [
+    # BSVector::from_iterator(x.as_slice().iter().cloned().map(Self::Field::from_real)): an O-vector filled from the O entries of x in order
+    # (from_real is the identity at the real instantiation)
+    ("BSVector::from_iterator(", "vx_vec_from_real_iter(", "R33-vector-from-iterator"),
+    (".as_slice().iter().cloned().map(Self::Field::from_real)", "", "R33-vector-from-iterator"),
+    # BVector::from_element_generic(dim, U1, 0): a zero vector of the problem's dimension
+    ("BVector::from_element_generic(self.dim, U1::name(), Self::Field::zero(),)", "V::vx_zeros(self.dim)", "R33-zero-vector"),
+]
+
+BUILD_SPEC = r'''
+#[verifier::external_body]
+pub fn vx_vec_from_real_iter(v: Vec<R>) -> (r: Vec<R>) ensures r@ == v@ { v }
+// the user's derivative function obeys the callback model (a pure function of (t, y): a vector of y's length, or an error)
+pub open spec fn deriv_ok<T, F: FnMut(R, &[R], &mut T) -> Result<V, UserError>>(f: F) -> bool {
+    &&& (forall|t: R, y: &[R], d: &mut T| #[trigger] f.requires((t, y, d)))
+    &&& (forall|t: R, y: &[R], d: &mut T, r: Result<V, UserError>| #[trigger] f.ensures((t, y, d), r) ==>
+          (df_ok(t@, slice_view(y)) ==> r is Ok && r->Ok_0@ == df_val(t@, slice_view(y)) && r->Ok_0@.len() == y@.len())
+          && (!df_ok(t@, slice_view(y)) ==> r is Err && r->Err_0 == df_err(t@, slice_view(y))))
+}
+'''
+
+ADAMS_TRAIT = r'''
+// src/ivp/adams.rs `pub trait AdamsCoefficients<const O: usize>` restated: the three associated functions are pure (they return
+// what the spec functions say), so that the generic builder can be specified for every implementor
+pub trait AdamsCoefficients<const O: usize> {
+    spec fn pc() -> Option<Seq<real>>;
+    spec fn cc() -> Option<Seq<real>>;
+    spec fn ec() -> Option<real>;
+    fn predictor_coefficients() -> (r: Option<Vec<R>>) ensures (r is Some) == (Self::pc() is Some), r is Some ==> vecr(r->Some_0) == Self::pc()->Some_0;
+    fn corrector_coefficients() -> (r: Option<Vec<R>>) ensures (r is Some) == (Self::cc() is Some), r is Some ==> vecr(r->Some_0) == Self::cc()->Some_0;
+    fn error_coefficient() -> (r: Option<R>) ensures (r is Some) == (Self::ec() is Some), r is Some ==> r->Some_0@ == Self::ec()->Some_0;
+}
+// what the step contracts need of the supplied tables (proved for Adams3 / Adams5 in the tableau units: the functions equal the literature tables)
+pub open spec fn adams_tables_ok<const O: usize, A: AdamsCoefficients<O>>() -> bool {
+    3 <= O <= 64 && A::pc() is Some && A::pc()->Some_0.len() == O && A::cc() is Some && A::cc()->Some_0.len() == O && A::ec() is Some && A::ec()->Some_0 > 0real
+}
+'''
+
+
+def builder_items(u, file, st):
+    """the builder struct, IVPIterator and the spec text the solve() contracts share"""
+    from vx.extract import Config
+    itcfg = cfg()
+    itcfg.drop_generics = {"D"}
+    itcfg.type_subst = [(["T", ":", "IVPStepper", "<", "D", ">"], "T")] + itcfg.type_subst
+    u.item("src/ivp.rs", "struct", "IVPIterator", drop_fields=("_dim",), cfg=itcfg)
+    u.item(file, "struct", st)
+    u.spec(BUILD_SPEC)
+
+
+BDF_TRAIT = r'''
+// src/ivp/bdf.rs `pub trait BDFCoefficients<const O: usize>` restated (pure associated functions)
+pub trait BDFCoefficients<const O: usize> {
+    spec fn hc() -> Option<Seq<real>>;
+    spec fn lc() -> Option<Seq<real>>;
+    fn higher_coefficients() -> (r: Option<Vec<R>>) ensures (r is Some) == (Self::hc() is Some), r is Some ==> vecr(r->Some_0) == Self::hc()->Some_0;
+    fn lower_coefficients() -> (r: Option<Vec<R>>) ensures (r is Some) == (Self::lc() is Some), r is Some ==> vecr(r->Some_0) == Self::lc()->Some_0;
+}
+pub open spec fn bdf_tables_ok<const O: usize, B: BDFCoefficients<O>>() -> bool {
+    3 <= O <= 64 && B::hc() is Some && B::hc()->Some_0.len() == O && B::lc() is Some && B::lc()->Some_0.len() == O
+}
+'''
+
+BUILDER_WF = """
+    // the builder's invariant (C06): supplied steps and tolerance positive, min <= max, start < end
+    pub open spec fn wf(&self) -> bool {
+        (self.init_dt_max is Some ==> self.init_dt_max->Some_0@ > 0real)
+        && (self.init_dt_min is Some ==> self.init_dt_min->Some_0@ > 0real)
+        && (self.init_tolerance is Some ==> self.init_tolerance->Some_0@ > 0real)
+        && (self.init_dt_max is Some && self.init_dt_min is Some ==> self.init_dt_min->Some_0@ <= self.init_dt_max->Some_0@)
+        && (self.init_time is Some && self.init_end is Some ==> self.init_time->Some_0@ < self.init_end->Some_0@)
+    }
+    pub open spec fn complete(&self) -> bool {
+        self.init_dt_max is Some && self.init_dt_min is Some && self.init_tolerance is Some && self.init_time is Some
+        && self.init_end is Some && self.init_state is Some && self.init_derivative is Some
+    }
+"""
+# what every adaptive solve() promises about the scalar fields of the solver it returns
+SOLVE_COMMON = ("res is Ok ==> !res->Ok_0.finished && res->Ok_0.solver.time@ == self.init_time->Some_0@ && res->Ok_0.solver.end@ == self.init_end->Some_0@ "
+                "&& res->Ok_0.solver.state == self.init_state->Some_0 && res->Ok_0.solver.tolerance@ == self.init_tolerance->Some_0@ "
+                "&& res->Ok_0.solver.dt_max@ == self.init_dt_max->Some_0@ && res->Ok_0.solver.dt_min@ == self.init_dt_min->Some_0@ "
+                "&& res->Ok_0.solver.dt@ == (self.init_dt_max->Some_0@ + self.init_dt_min->Some_0@) / 2real && res->Ok_0.solver.derivative == self.init_derivative->Some_0")
+HALF_HINT = """            assert(half@ == 1real / 2real);
+            assert((dt_max@ + dt_min@) * half@ == (dt_max@ + dt_min@) / 2real) by(nonlinear_arith) requires half@ == 1real / 2real;
+"""
+
+
+def adams_solve(u, st, solver, file, G):
+    builder_items(u, file, st)
+    u.spec(ADAMS_TRAIT)
+    GB = G[:-1] + ", A: AdamsCoefficients<O>>"
+    TY = f"{st}<D, O, T, F, A>"
+    u.spec(f"impl{GB} {TY} {{" + BUILDER_WF + "}\n")
+    im = u.impl(file, f"IVPSolver<'a, D> for {st}<'a, N, D, O, T, F, A>", header=f"impl{GB} {TY}", keep_assoc=False)
+    f = im.fn("solve")
+    f.attrs = []
+    f.opt(subst=BUILD_RULES, bind_tail="Ok(IVPIterator", tail_hint="proof {\n            let s = vx_res->Ok_0.solver;\n" + HALF_HINT + """
+            assert(s.pv() =~= Seq::<(real, Seq<real>)>::empty());
+            assert(s.pd() =~= Seq::<Seq<real>>::empty());
+            if O >= 3 { lemma_hist_empty(O as int, true, s.dt@, s.dt_max@, 0, s.time@, s.end@, s.pv(), s.pd(), s.save_state@.len(), s.state@, s.implicit_derivs@); }
+        }""")
+    f.req("self.wf()")
+    f.ens(# C06: a missing mandatory parameter is reported as such; a complete valid configuration always builds
+          "!self.complete() ==> res is Err && res->Err_0 is MissingParameters",
+          "self.complete() && adams_tables_ok::<O, A>() ==> res is Ok",
+          # the solver starts from the user's data with dt = (dt_min + dt_max) / 2, an empty history, and the coefficient tables of A copied in order
+          SOLVE_COMMON + " && res->Ok_0.solver.yield_memory == 0 && res->Ok_0.solver.prev_values@.len() == 0 && res->Ok_0.solver.prev_derivatives@.len() == 0",
+          "res is Ok ==> A::pc() is Some && A::cc() is Some && A::ec() is Some && vecr(res->Ok_0.solver.predictor_coefficients) == A::pc()->Some_0 "
+          "&& vecr(res->Ok_0.solver.corrector_coefficients) == A::cc()->Some_0 && res->Ok_0.solver.error_coefficient@ == A::ec()->Some_0",
+          # C01 / C03: the precondition of every step() contract holds for the solver that solve() returns
+          "res is Ok && adams_tables_ok::<O, A>() && deriv_ok(self.init_derivative->Some_0) ==> res->Ok_0.solver.inv()")
+    return f
+
+
+def bdf_solve(u, st, solver, file, G):
+    builder_items(u, file, st)
+    u.spec(BDF_TRAIT)
+    GB = G[:-1] + ", B: BDFCoefficients<O>>"
+    TY = f"{st}<D, O, T, F, B>"
+    u.spec(f"impl{GB} {TY} {{" + BUILDER_WF + "}\n")
+    im = u.impl(file, f"IVPSolver<'a, D> for {st}<'a, N, D, O, T, F, B>", header=f"impl{GB} {TY}", keep_assoc=False)
+    f = im.fn("solve")
+    f.attrs = []
+    f.opt(subst=BUILD_RULES + [("BVector::from_element_generic(self.dim, U1::from_usize(1), Self::Field::zero(),)", "V::vx_zeros(self.dim)", "R33-zero-vector")],
+          bind_tail="Ok(IVPIterator", tail_hint="proof {\n            let s = vx_res->Ok_0.solver;\n" + HALF_HINT + """
+            assert(s.pv() =~= Seq::<(real, Seq<real>)>::empty());
+            assert(s.pdb() =~= Seq::<Seq<real>>::empty());
+            if O >= 3 { lemma_hist_empty(O as int + 1, false, s.dt@, s.dt_max@, 0, s.time@, s.end@, s.pv(), s.pdb(), s.save_state@.len(), s.state@, s.state@); }
+        }""")
+    f.req("self.wf()")
+    f.ens("!self.complete() ==> res is Err && res->Err_0 is MissingParameters",
+          "self.complete() && bdf_tables_ok::<O, B>() ==> res is Ok",
+          SOLVE_COMMON + " && res->Ok_0.solver.yield_memory == 0 && res->Ok_0.solver.prev_values@.len() == 0 && res->Ok_0.solver.dim == self.dim",
+          "res is Ok ==> B::hc() is Some && B::lc() is Some && vecr(res->Ok_0.solver.higher_coefficients) == B::hc()->Some_0 && vecr(res->Ok_0.solver.lower_coefficients) == B::lc()->Some_0",
+          # C01 / C03: the precondition of every step() contract holds (the initial state must have the builder's dimension)
+          "res is Ok && bdf_tables_ok::<O, B>() && deriv_ok(self.init_derivative->Some_0) && self.init_state->Some_0@.len() == self.dim.size() ==> res->Ok_0.solver.inv()")
+    return f
+
+
+RK_TRAIT = r'''
+// src/ivp/rk.rs `pub trait RungeKuttaCoefficients<const O: usize>` restated (pure associated functions)
+pub trait RungeKuttaCoefficients<const O: usize> {
+    spec fn tc() -> Option<Seq<real>>;
+    spec fn kc() -> Option<KM<O>>;
+    spec fn ac() -> Option<Seq<real>>;
+    spec fn erc() -> Option<Seq<real>>;
+    fn t_coefficients() -> (r: Option<Vec<R>>) ensures (r is Some) == (Self::tc() is Some), r is Some ==> vecr(r->Some_0) == Self::tc()->Some_0;
+    fn k_coefficients() -> (r: Option<KM<O>>) ensures (r is Some) == (Self::kc() is Some), r is Some ==> r->Some_0 == Self::kc()->Some_0;
+    fn avg_coefficients() -> (r: Option<Vec<R>>) ensures (r is Some) == (Self::ac() is Some), r is Some ==> vecr(r->Some_0) == Self::ac()->Some_0;
+    fn error_coefficients() -> (r: Option<Vec<R>>) ensures (r is Some) == (Self::erc() is Some), r is Some ==> vecr(r->Some_0) == Self::erc()->Some_0;
+}
+// what the step contract needs of the supplied tableau (proved for RK45 / RK23 in the tableau units: the functions equal the literature tables,
+// which are strictly lower triangular)
+pub open spec fn rk_tables_ok<const O: usize, RC: RungeKuttaCoefficients<O>>() -> bool {
+    &&& O >= 1 && RC::tc() is Some && RC::tc()->Some_0.len() == O && RC::ac() is Some && RC::ac()->Some_0.len() == O && RC::erc() is Some && RC::erc()->Some_0.len() == O
+    &&& RC::kc() is Some && RC::kc()->Some_0.wf()
+    &&& forall|i: int, j: int| #![trigger RC::kc()->Some_0.at(i, j)] 0 <= i <= j < O ==> RC::kc()->Some_0.at(i, j) == 0real
+}
+// BSMatrix::from_iterator_generic(O, O, m.as_slice().iter().cloned().map(from_real)): nalgebra fills column by column from the
+// iterator, and as_slice() of a statically sized matrix lists its entries column by column: an entry-wise copy
+#[verifier::external_body]
+pub fn vx_mat_from_real_iter<const O: usize>(m: KM<O>) -> (r: KM<O>) ensures r == m { m }
+'''
+
+
+def rk_solve(u, st, solver, file, G):
+    builder_items(u, file, st)
+    u.spec(RK_TRAIT)
+    GB = G[:-1] + ", RC: RungeKuttaCoefficients<O>>"
+    TY = f"{st}<D, O, T, F, RC>"
+    u.spec(f"impl{GB} {TY} {{" + BUILDER_WF + "}\n")
+    im = u.impl(file, f"IVPSolver<'a, D> for {st}<'a, N, D, O, T, F, R>", header=f"impl{GB} {TY}", keep_assoc=False)
+    f = im.fn("solve")
+    f.attrs = []
+    f.opt(subst=BUILD_RULES + [
+              ("BSMatrix::<N, O, O>::from_iterator_generic(<Const<O> as Dim>::from_usize(O), <Const<O> as Dim>::from_usize(O),", "vx_mat_from_real_iter(", "R33-matrix-from-iterator"),
+              ("BMatrix::from_element_generic(self.dim, <Const<O> as DimName>::name(), Self::Field::zero(),)", "HM::vx_zeros(self.dim, O)", "R33-zero-matrix"),
+              ("BVector::from_element_generic(self.dim, U1::name(), Self::Field::zero())", "V::vx_zeros(self.dim)", "R33-zero-vector")],
+          bind_tail="Ok(IVPIterator", tail_hint="""proof {
+            let s = vx_res->Ok_0.solver;
+            assert(half@ == 1real / 2real);
+            assert((dt_max@ + dt_min@) * half@ == (dt_max@ + dt_min@) / 2real) by(nonlinear_arith) requires half@ == 1real / 2real;
+        }""")
+    f.req("self.wf()")
+    f.ens("!self.complete() ==> res is Err && res->Err_0 is MissingParameters",
+          "self.complete() && rk_tables_ok::<O, RC>() ==> res is Ok",
+          SOLVE_COMMON,
+          # the tableau of RC copied entry by entry
+          "res is Ok ==> RC::tc() is Some && RC::kc() is Some && RC::ac() is Some && RC::erc() is Some && vecr(res->Ok_0.solver.t_coefficients) == RC::tc()->Some_0 "
+          "&& res->Ok_0.solver.k_coefficients == RC::kc()->Some_0 && vecr(res->Ok_0.solver.avg_coefficients) == RC::ac()->Some_0 && vecr(res->Ok_0.solver.error_coefficients) == RC::erc()->Some_0",
+          # C01 / C03: the precondition of the step() contract holds (the initial state must have the builder's dimension)
+          "res is Ok && rk_tables_ok::<O, RC>() && deriv_ok(self.init_derivative->Some_0) && self.init_state->Some_0@.len() == self.dim.size() ==> res->Ok_0.solver.inv()")
+    return f
+
 
 def adams_solver_unit(prop="C03"):
     c = cfg(extra=[("AdamsSolver<'a, N, D, O, T, F>", "AdamsSolver<D, O, T, F>"), ("BSVector<N, O>", "Vec<R>"),
-                   ("Step<Self::RealField, Self::Field, D, Self::Error>", "Result<(R, V), IVPStatus<IVPError>>")])
+                   ("Step<Self::RealField, Self::Field, D, Self::Error>", "Result<(R, V), IVPStatus<IVPError>>"),
+                   # the builder (solve() only)
+                   ("Adams<'a, N, D, O, T, F, A>", "Adams<D, O, T, F, A>"), ("PhantomData<&'a (T, A)>", "PhantomData<(T, A)>"),
+                   ("IVPIterator<D, Self::Solver>", "IVPIterator<AdamsSolver<D, O, T, F>>")])
+    c.drop_where += ["A"]
     u = Unit(prop, "adams_solver", preludes=("real", "stdx", "ivp", "rkm", "deque"), cfg=c)
     u.crate_attrs = ["#![feature(allocator_api)]"]
     u.rlimit = 300
@@ -603,6 +807,7 @@ def adams_solver_unit(prop="C03"):
             assert(d * b >= 0real) by(nonlinear_arith) requires d > 0real, b >= 2real;
         }""")
     g.hint("before: #3 Err(IVPStatus::Redo)", "proof { lemma_hist_empty(" + A("self") + "); }")
+    adams_solve(u, "Adams", "AdamsSolver", AD, G)
     return u, f
 
 
@@ -652,7 +857,11 @@ pub uninterp spec fn GV(t: real, y: Seq<real>) -> Seq<real>;
 def bdf_solver_unit(prop="C03"):
     c = cfg(extra=[("BDFSolver<'a, N, D, O, T, F>", "BDFSolver<D, O, T, F>"), ("BSVector<N, O>", "Vec<R>"), ("BMatrix<N, D, D>", "DMx"),
                    ("BMatrix::from_element_generic(self.dim, self.dim, N::zero())", "DMx::zeros(self.dim, self.dim)"),
-                   ("Step<Self::RealField, Self::Field, D, Self::Error>", "Result<(R, V), IVPStatus<IVPError>>")])
+                   ("Step<Self::RealField, Self::Field, D, Self::Error>", "Result<(R, V), IVPStatus<IVPError>>"),
+                   # the builder (solve() only)
+                   ("BDF<'a, N, D, O, T, F, B>", "BDF<D, O, T, F, B>"), ("PhantomData<&'a (T, B)>", "PhantomData<(T, B)>"),
+                   ("IVPIterator<D, Self::Solver>", "IVPIterator<BDFSolver<D, O, T, F>>")])
+    c.drop_where += ["B"]
     c.drop_pred = ["D:DimMin<D,Output=D>"]
     c.extra = list(c.extra) + [("G: FnMut(&mut Self, N::RealField, &[N], &mut T) -> Result<BVector<N, D>, UserError>",
                                 "G: FnMut(&mut Self, R, &[R], &mut T) -> Result<V, UserError>", "R1-type-instantiation")]
@@ -946,6 +1155,7 @@ pub open spec fn fd_of(m: int, gf: spec_fn(real, Seq<real>) -> Seq<real>, tt: re
     st.hint("before: #3 Err(IVPStatus::Redo)", "proof { lemma_hist_empty(" + AB("self") + "); }")
     st.hint("before: #1 bdf.scratch_pad =", "let ghost b0 = *bdf;")
     st.hint("before: #2 bdf.scratch_pad =", "let ghost b0 = *bdf;")
+    bdf_solve(u, "BDF", "BDFSolver", BD, G)
     return u, j
 
 
@@ -973,6 +1183,9 @@ DECIDED = [
     "jac_finite_diff returns, for every pure function the callback computes, its central DIFFERENCES of width dt; the history invariant (O equally spaced stored points, sentinels O+1/O+2) is preserved by every branch; "
     "a rejected trial right after the start-up rewinds the clock by order * dt and restores the saved state",
     "EulerSolver::step (C06 unit): y + dt f(t, y)",
+    "RungeKutta::solve / Adams::solve / BDF::solve: the solver handed to the iterator carries the tables of the coefficient trait (whose implementations are the tableau units above) entry by entry, "
+    "dt = (dt_min + dt_max)/2, the constants 1/2, 1/6, 1/10, 2, 4, order = O, an empty history and yield_memory 0, and satisfies the invariant the step() contracts require -- so the step contracts apply to "
+    "every solver built with valid parameters, not only to solvers assumed well-formed",
 ]
 NOT_DECIDED = [
     "BDF: that the accepted value solves the residual equation to within the tolerance -- secant() stops on the size of its last quasi-Newton update, not on the residual; the Broyden update operations carry no contract "
